@@ -80,6 +80,11 @@ func c01Check(w *mon.W, words []uint64) bool {
 	w.Op = "IndexRank64"
 	idx := bitmap.IndexRank64(words)
 	idxF := bitmap.IndexRank64(words, false)
+	// "no option" also arrives as a nil and as an empty non-nil variadic slice
+	if ie, in := bitmap.IndexRank64(words, []bool{}...), bitmap.IndexRank64(words, []bool(nil)...); !eqI32(ie, idxF) || !eqI32(in, idxF) {
+		w.Fail("IndexRank64/empty-variadic-differs-from-no-option", mon.D{"nwords": len(words)})
+		return false
+	}
 	idxT := bitmap.IndexRank64(words, true)
 	w.Op = "IndexRank128"
 	idx128 := bitmap.IndexRank128(words)
